@@ -320,11 +320,60 @@ func RCaseRecur(c *core.Ctx) {
 		return
 	}
 	n := 0
-	for _, b := range fn.Blocks {
-		for _, ins := range b.Instrs {
-			if call, ok := ins.(*ssa.Call); ok && call.Call.StaticCallee() == fn {
+	// the recursion may run through helpers (scanSubtraction(cc, caseInsensitive, scanOnly)): a helper that is
+	// called from scanCharSet and calls scanCharSet must hand the flag on from its own parameter, and must itself
+	// be given scanCharSet's flag
+	targets := map[*ssa.Function]int{fn: idx} // function -> index of the parameter that carries the flag
+	reachFromSCS := p.Reachable([]*ssa.Function{fn})
+	for changed := true; changed; {
+		changed = false
+		for _, f := range p.ModuleFuncs() {
+			if f != fn && !reachFromSCS[f] {
+				continue
+			}
+			for _, b := range f.Blocks {
+				for _, ins := range b.Instrs {
+					call, ok := ins.(*ssa.Call)
+					if !ok {
+						continue
+					}
+					ti, isT := targets[call.Call.StaticCallee()]
+					if !isT || ti >= len(call.Call.Args) {
+						continue
+					}
+					if _, known := targets[f]; known {
+						continue
+					}
+					if prm, ok := call.Call.Args[ti].(*ssa.Parameter); ok && prm.Parent() == f {
+						for j, fp := range f.Params {
+							if fp == prm {
+								targets[f] = j
+								changed = true
+							}
+						}
+					}
+				}
+			}
+		}
+	}
+	for _, f := range p.ModuleFuncs() {
+		if f != fn && !reachFromSCS[f] {
+			continue
+		}
+		for _, b := range f.Blocks {
+			for _, ins := range b.Instrs {
+				call, ok := ins.(*ssa.Call)
+				if !ok {
+					continue
+				}
+				ti, isT := targets[call.Call.StaticCallee()]
+				if !isT || ti >= len(call.Call.Args) {
+					continue
+				}
 				n++
-				c.Check(call.Call.Args[idx] == fn.Params[idx], fmt.Sprintf("scanCharSet / recursive call #%d passes caseInsensitive through", n), call.Pos(), "argument %s", call.Call.Args[idx].String())
+				own, has := targets[f]
+				okPass := has && call.Call.Args[ti] == ssa.Value(f.Params[own])
+				c.Check(okPass, fmt.Sprintf("%s / call #%d of %s on the subtraction path passes caseInsensitive through", core.SSAName(f), n, core.BaseName(call.Call.StaticCallee())), call.Pos(), "argument %s", call.Call.Args[ti].String())
 			}
 		}
 	}
